@@ -517,17 +517,17 @@ def starStep (d : DCtx) (config : Option Str) (s : Sid)
         | .ok true => .ok (out ++ [x], found ++ [path])
 
 theorem pathsStarGo_cons (d : DCtx) (w : World) (config : Option Str) (s : Sid) (rest : List Sid)
-    (searched : List (Str × Str)) (found : List Str) :
+    (searched : List (Str × Str × Str)) (found : List Str) :
     d.pathsStarGo w config (s :: rest) searched found =
       match d.ctx.sidPath config s with
       | .error e => .error e
       | .ok p =>
         let pattern := p.getD ['N','o','n','e']
-        if searched.contains (s.type, pattern) then d.pathsStarGo w config rest searched found else
+        if searched.contains (s.type, pattern, s.string) then d.pathsStarGo w config rest searched found else
         match (w.glob pattern).foldl (starStep d config s) (.ok ([], found)) with
         | .error e => .error e
         | .ok (out, found) =>
-          match d.pathsStarGo w config rest (searched ++ [(s.type, pattern)]) found with
+          match d.pathsStarGo w config rest (searched ++ [(s.type, pattern, s.string)]) found with
           | .error e => .error e
           | .ok more => .ok (out ++ more) := by
   rfl
@@ -551,7 +551,7 @@ theorem glob_nodes_eq (w w' : World) (h : w'.nodes = w.nodes) (pat : Str) : w'.g
   unfold glob; rw [h]
 
 theorem pathsStarGo_nodes_eq (d : DCtx) (w w' : World) (h : w'.nodes = w.nodes) (config : Option Str)
-    (searches : List Sid) (searched : List (Str × Str)) (found : List Str) :
+    (searches : List Sid) (searched : List (Str × Str × Str)) (found : List Str) :
     d.pathsStarGo w' config searches searched found = d.pathsStarGo w config searches searched found := by
   induction searches generalizing searched found with
   | nil => rfl
@@ -564,7 +564,7 @@ theorem pathsStarGo_nodes_eq (d : DCtx) (w w' : World) (h : w'.nodes = w.nodes) 
 theorem pathsStarGo_add (d : DCtx) (w : World) (sc : List (Str × Sidecar)) (config : Option Str) (p : Str) (k : Node)
     (searches : List Sid)
     (hstep : ∀ s ∈ searches, ∀ acc, starStep d config s acc p = acc)
-    (searched : List (Str × Str)) (found : List Str) :
+    (searched : List (Str × Str × Str)) (found : List Str) :
     d.pathsStarGo ⟨w.nodes ++ [(p, k)], sc⟩ config searches searched found =
       d.pathsStarGo w config searches searched found := by
   induction searches generalizing searched found with
@@ -661,7 +661,7 @@ theorem starFold_res (d : DCtx) (w : World) (config : Option Str) (s : Sid) (l :
                 exact this.symm
 
 theorem pathsStarGo_res (d : DCtx) (w : World) (config : Option Str) (searches : List Sid)
-    (searched : List (Str × Str)) (found : List Str) (r : List Sid)
+    (searched : List (Str × Str × Str)) (found : List Str) (r : List Sid)
     (h : d.pathsStarGo w config searches searched found = .ok r) :
     ∀ x ∈ r, ∃ s ∈ searches, StarRes d w config s x := by
   induction searches generalizing searched found r with
